@@ -47,13 +47,13 @@ META = dict(
     "exception class, number of objects reverted)",
     assumptions=["SQLite with foreign_keys=ON, autocommit=False driver mode", "single session, no concurrent writer", "one fault per flush"],
     bounds=dict(
-        quick="worlds U1(3 cascades) U2 U3 U4 U5 U7 U8; histories <= 2 operations after empty / populated committed roots, final flush and commit; "
+        quick="worlds U1(3 cascades) U2 U3 U4 U5 U7 U8; histories <= 2 operations after the populated committed root (<= 1 after the other roots), final flush and commit; "
         "every statement position x {IntegrityError, OperationalError alternating}, every hook invocation",
-        thorough="same worlds, histories <= 3 operations, every statement position x both exception classes, every hook invocation",
+        thorough="same worlds, histories <= 3 operations after the populated root with autoflush (<= 2 elsewhere), every statement position x both exception classes, every hook invocation",
     ),
 )
 
-SHARD_TIMEOUT = dict(quick=600, thorough=3000)
+SHARD_TIMEOUT = dict(quick=1500, thorough=6000)
 
 # expunge is left out: an object expunged inside the transaction is, by design, not re-attached by rollback, so "the
 # same work" cannot be repeated on it
@@ -65,6 +65,9 @@ def world_keys(tier):
     return [("U1", SU), ("U1", ALL), ("U1", ORPH), ("U7", ORPH), ("U3", ORPH), ("U2", ALL), ("U4", ORPH), ("U5", True, SU), ("U5", False, SU), ("U8", ALL)]
 
 
+NPART = 4
+
+
 def shards(tier, seed):
     out = []
     for wk in world_keys(tier):
@@ -72,7 +75,12 @@ def shards(tier, seed):
             for af in (True, False):
                 if not af and ri == 0:
                     continue
-                out.append(dict(world=wk, root=ri, autoflush=af, depth=2 if tier == "quick" else 3, both=(tier != "quick")))
+                if tier == "quick":
+                    depth = 2 if ri == 1 else 1
+                else:
+                    depth = 3 if (ri == 1 and af) else 2
+                for part in range(NPART if depth >= 2 else 1):
+                    out.append(dict(world=wk, root=ri, autoflush=af, depth=depth, both=(tier != "quick"), part=part, nparts=NPART if depth >= 2 else 1))
     return out
 
 
@@ -350,7 +358,9 @@ def ow_redo(run, op):
 def run_shard(shard, tier, rec):
     w = ow.world(shard["world"])
     root = tuple(c30.ROOTS[shard["world"][0]][shard["root"]])
-    for h, ms in enumerate_histories(w, root, shard["depth"], shard["autoflush"]):
+    for i, (h, ms) in enumerate(enumerate_histories(w, root, shard["depth"], shard["autoflush"])):
+        if i % shard.get("nparts", 1) != shard.get("part", 0):
+            continue
         for F in (("flush",), ("commit",)):
             check_history(rec, w, shard, h, F)
 
